@@ -156,3 +156,78 @@ def order_and_stale(ctx, rep):
     if not k:
         rep.proved("R-C05-stale", "pennylane/core/qscript.py:QuantumScript.copy", "the memoised hash is never carried to a copy: every copy recomputes it",
                    nontrivial=False)
+
+
+# ------------------------------------------------------------------------------------------------------------------
+def memo_hash(ctx, rep):
+    """R-C05-memo: an operator class that memoises its hash in an instance attribute must not hand that attribute to a sibling
+    whose content differs.  Methods that clone `vars(self)` (or copy.copy(self)) and then change wires / operands / data must
+    leave the memo out of the clone or reset it; otherwise the new operator hashes like the old one, two different circuits
+    share a tape hash, and cached execution returns the result of the wrong circuit."""
+    ix = ctx.index
+    rep.rule("R-C05-memo", "for every Operator class whose __hash__ memoises in `self.<A>` (test `self.<A> is None`, store `self.<A> = hash(...)`): "
+             "every method of the class or a subclass, other than __copy__/__deepcopy__, that builds a new instance from `vars(self)` or copy(self) "
+             "and assigns other attributes of it excludes <A> from the cloned attributes or resets `new.<A> = None`")
+    n_cls = n_meth = 0
+    for c in ix.classes:
+        rel = c.module.relpath
+        if not rel.startswith("pennylane/") or "/tests/" in rel:
+            continue
+        if not {b.name for b in c.mro()} & {"Operator", "Operator2"}:
+            continue
+        h = c.own_method("__hash__")
+        if h is None:
+            continue
+        memo = None
+        for n in ast.walk(h.node):
+            if isinstance(n, ast.Assign) and len(n.targets) == 1 and isinstance(n.targets[0], ast.Attribute) and isinstance(n.targets[0].value, ast.Name) \
+                    and n.targets[0].value.id == "self" and isinstance(n.value, ast.Call) and call_name(n.value) == "hash":
+                memo = n.targets[0].attr
+        if memo is None:
+            continue
+        n_cls += 1
+        rep.analysed(rel, h.qualname)
+        subs = [k for k in ix.classes if c in k.mro()]
+        for k in subs:
+            for name, fl in k.methods.items():
+                if name in ("__copy__", "__deepcopy__", "__init__", "__hash__"):
+                    continue
+                for f in fl:
+                    clones = []  # (new name, node, excluded attrs or None when everything is cloned)
+                    for n in walk_shallow(f.node):
+                        if isinstance(n, ast.For) and "vars(self)" in norm(n.iter):
+                            excl = set()
+                            for t in ast.walk(n):
+                                if isinstance(t, ast.Compare) and len(t.ops) == 1 and isinstance(t.ops[0], ast.NotIn) and isinstance(t.comparators[0], (ast.Set, ast.Tuple, ast.List)):
+                                    excl |= {e.value for e in t.comparators[0].elts if isinstance(e, ast.Constant)}
+                            tgt = None
+                            for s_ in ast.walk(n):
+                                if isinstance(s_, ast.Call) and call_name(s_) == "setattr" and s_.args and isinstance(s_.args[0], ast.Name):
+                                    tgt = s_.args[0].id
+                            if tgt:
+                                clones.append((tgt, n, excl))
+                        if isinstance(n, ast.Assign) and len(n.targets) == 1 and isinstance(n.targets[0], ast.Name) and isinstance(n.value, ast.Call):
+                            cn = call_name(n.value) or ""
+                            if cn.split(".")[-1] == "copy" and n.value.args and norm(n.value.args[0]) == "self" or norm(n.value) == "self.__copy__()":
+                                clones.append((n.targets[0].id, n, set()))
+                    for new, node, excl in clones:
+                        n_meth += 1
+                        rep.analysed(k.module.relpath, f.qualname)
+                        writes = [s_ for s_ in walk_shallow(f.node) if isinstance(s_, ast.Assign) and any(
+                            isinstance(t, ast.Attribute) and isinstance(t.value, ast.Name) and t.value.id == new for t in s_.targets)]
+                        resets = [s_ for s_ in writes if any(isinstance(t, ast.Attribute) and t.attr == memo for t in s_.targets)
+                                  and isinstance(s_.value, ast.Constant) and s_.value.value is None]
+                        content = [s_ for s_ in writes if not any(isinstance(t, ast.Attribute) and t.attr == memo for t in s_.targets)]
+                        where = f"{k.module.relpath}:{f.qualname}"
+                        if not content:
+                            rep.proved("R-C05-memo", where, "clone with unchanged content", nontrivial=False)
+                        elif memo in excl or resets:
+                            rep.proved("R-C05-memo", where, f"`{memo}` is left out of the clone / reset before the changed operator is returned")
+                        else:
+                            rep.refuted("R-C05-memo", k.module.relpath, f.qualname, node,
+                                        f"the new operator receives every attribute of `self` including the memoised `{memo}` and is then given different "
+                                        f"content (`{norm(content[0])[:60]}`): once the original has been hashed, the new operator reports the same hash, "
+                                        "so two circuits that differ only in this operator share a tape hash and cached execution returns the result "
+                                        "of the other circuit", line=node.lineno)
+    rep.floor("operator classes memoising their hash", n_cls, 1)
+    rep.floor("cloning methods of hash-memoising operator classes", n_meth, 1)
